@@ -13,6 +13,13 @@ const char* const NAMES[NN] = {"a", "b", "c_name_that_is_longer_than_the_small_s
 constexpr int MAXID = 16;
 int g_alive[MAXID];
 int g_next_id;
+struct Obj;
+// other owners: every object a client creates stays referenced from outside the holder until the end, so that
+// a removed object is still alive (what a stale lookup would hand out)
+struct Keep {
+    std::shared_ptr<Obj> arr[MAXID];
+};
+Keep* g_keep;
 
 struct Obj {
     int id;
@@ -167,8 +174,18 @@ Res real_apply(SOH& h, const Op& o, int newid)
     Res res{0, 0, 0};
     auto pred = [sel = o.a](const SP& p) { return pred_match(sel, p->id); };
     switch (o.k) {
-        case ADD: res.v = h.addObject(NAMES[o.a], std::make_shared<Obj>(newid)); break;
-        case ADDT: res.v = h.addObject(NAMES[o.a], std::make_shared<Obj>(newid), (int)o.b); break;
+        case ADD: {
+            auto sp = std::make_shared<Obj>(newid);
+            if (g_keep) g_keep->arr[newid] = sp;
+            res.v = h.addObject(NAMES[o.a], std::move(sp));
+            break;
+        }
+        case ADDT: {
+            auto sp = std::make_shared<Obj>(newid);
+            if (g_keep) g_keep->arr[newid] = sp;
+            res.v = h.addObject(NAMES[o.a], std::move(sp), (int)o.b);
+            break;
+        }
         case ADDTYPE: h.addType(NAMES[o.a], (int)o.b); break;
         case COPY: res.v = h.copyObject(NAMES[o.a], NAMES[o.b]); break;
         case REMOVE: res.v = h.removeObject(std::string(NAMES[o.a])); break;
@@ -194,10 +211,11 @@ Res real_apply(SOH& h, const Op& o, int newid)
 // ---------------------------------------------------------------- programs
 struct Prog {
     std::vector<std::vector<Op>> threads;
+    bool keep_refs = false;  // clients keep their own reference to every object they add
 };
 std::string text(const Prog& p)
 {
-    std::string s = "SearchableObjectHolder";
+    std::string s = p.keep_refs ? "SearchableObjectHolder [objects also owned elsewhere]" : "SearchableObjectHolder";
     for (auto& t : p.threads) {
         s += " |";
         for (auto& o : t) s += " " + optext(o);
@@ -278,6 +296,7 @@ void body(const Prog& p)
     g_nhist = 0;
     size_t base_blocks = live_blocks();
     SOH* h = new SOH();
+    g_keep = p.keep_refs ? new Keep() : nullptr;
     const bool solo = p.threads.size() == 1;
     {
         std::vector<int> ids;
@@ -317,6 +336,8 @@ void body(const Prog& p)
     // drain and destroy (the destructor waits a bounded time for a non-empty map)
     for (int n = 0; n < NN; n++) (void)h->removeObject(std::string(NAMES[n]));
     delete h;
+    delete g_keep;
+    g_keep = nullptr;
     for (int i = 1; i < MAXID; i++) MC_CHECK(!g_alive[i], "object-leak", "object %d still alive after the holder was emptied and destroyed", i);
     MC_CHECK(live_blocks() == base_blocks, "leak", "%zu arena blocks not freed", live_blocks() - base_blocks);
 }
@@ -350,6 +371,10 @@ void make_items(const Options& o, std::vector<Item>& items)
             for (int i : s) t.push_back(mut[i]);
             p.threads.push_back(t);
             add(p, 0, 0);
+            if (s.size() <= 3) {
+                p.keep_refs = true;
+                add(p, 0, 0);
+            }
         }
     }
     // ---- concurrent part
@@ -389,6 +414,7 @@ void make_items(const Options& o, std::vector<Item>& items)
                     if (o2.k <= RMPRED) muts++;
             if (!(a0 && a1) && muts < 4) return;
         }
+        p.keep_refs = (items.size() % 2) == 1;
         add(p, 2, 3);
     });
     hx::multisets((int)seq1.size(), 3, [&](const std::vector<int>& idx) {
